@@ -717,7 +717,8 @@ def suite_validate(tier, seed, pid="RELAY"):
             impls.append({"k": "notquery"})
         except Exception:
             impls.append({"k": "crash"})
-    outs = model_batch("relay.validate", [{"max_limit": 6000, "raw": c} for c in cases], pid=pid)
+    default_limit = NostrQuery.model_fields["limit"].default     # Config.max_limit at the time base.py was imported
+    outs = model_batch("relay.validate", [{"max_limit": default_limit, "raw": c} for c in cases], pid=pid)
     for c, mo, io in zip(cases, outs, impls):
         s.case(c, nontrivial=io["k"] == "ok")
         s.count("impl_" + io["k"])
@@ -858,3 +859,70 @@ def replay(payload, pid):
         return 1 if io != mo else 0
     print(json.dumps(payload, indent=1)[:4000])
     return 0
+
+
+# ------------------------------------------------------------------ bounded-exhaustive interleavings (thorough)
+def suite_exhaustive(tier, seed, backend="sql", pid="RELAY"):
+    """For fixed short message scripts on two connections, every choice of up to two background steps
+    (a query-task step or a pending notify task, or nothing) after each message: 3^(2k) schedules per script."""
+    import itertools
+    s = Suite("trace:exhaustive-%s" % backend)
+    s.rule = ("fixed scripts of 3 messages over {REQ s F, REQ s F' (replacement), CLOSE s, EVENT e} on two connections; after every message two "
+              "slots each filled with one of the enabled background steps (query-task row step of any registered running subscription, any "
+              "pending notify task) or nothing: all 3^6 slot assignments per script, each a fresh run of the real code under gates")
+    evs = [env.mk_event(i % 3, 1, env.NOW - 50 + i, [["t", "x" if i % 2 else "y"]], "x%d" % i) for i in range(4)]
+    F1 = {"kinds": [1]}
+    F2 = {"#t": ["x"]}
+    scripts = [
+        [(0, ["REQ", "s", F1]), (1, ["EVENT", evs[2]]), (0, ["REQ", "s", F2])],
+        [(0, ["REQ", "s", F1]), (1, ["EVENT", evs[2]]), (0, ["CLOSE", "s"])],
+        [(0, ["REQ", "s", F2]), (0, ["EVENT", evs[3]]), (1, ["REQ", "s", F1])],
+        [(1, ["EVENT", evs[2]]), (0, ["REQ", "a", F1]), (1, ["EVENT", evs[3]])],
+    ]
+    if tier != "thorough":
+        scripts = scripts[:1]
+    cases, impls, healths = [], [], []
+
+    async def one(script, slots):
+        d = Driver(backend, sub_limit=2, max_limit=50)
+        await d.start()
+        await d.open(0)
+        await d.open(1)
+        await d.msg(1, ["EVENT", evs[0]])
+        await d.msg(1, ["EVENT", evs[1]])
+        it = iter(slots)
+        for (c, m) in script:
+            await d.msg(c, m)
+            for _ in range(2):
+                ch = next(it)
+                acts = [("row",) + rs for rs in d.running_subs()] + [("notify", i) for i in range(len(d.pending))]
+                if ch == 0 or not acts:
+                    continue
+                a = acts[(ch - 1) % len(acts)]
+                if a[0] == "row":
+                    await d.row(a[1], a[2])
+                else:
+                    await d.notify(a[1])
+        while d.pending:
+            await d.notify(0)
+        for _ in range(50):
+            rs = d.running_subs()
+            if not rs:
+                break
+            await d.row(*rs[0])
+        tr = d.transcripts()
+        ops, regs, npending = d.ops, d.registries, len(d.pending)
+        health = await d.finish()
+        return {"cfg": {"sub_limit": 2, "max_limit": 50, "kv": backend != "sql", "auth": False}, "ops": ops}, \
+               {"transcripts": tr, "registries": regs, "pending": npending}, health
+    B = 3 if tier == "thorough" else 2
+    for script in scripts:
+        for slots in itertools.product(range(B), repeat=2 * len(script)):
+            case, impl, health = env.run(one(script, slots))
+            cases.append(case)
+            impls.append(impl)
+            healths.append(health)
+    outs = model_batch("relay.run", cases, pid=pid)
+    for case, impl, health, mo in zip(cases, impls, healths, outs):
+        compare(s, case, impl, health, mo)
+    return s
